@@ -212,7 +212,9 @@ pub fn generate_c07(thorough: bool, seed: u64, part: (usize, usize), em: &mut Em
         let scv = rr.bytes(8); let mut sc = [0u8; 8]; sc.copy_from_slice(&scv);
         for rcp in &["empty", "trunc:1", "trunc:2", "trunc:3", "trunc:4", "trunc:5", "trunc:40", "trunc:200", "raw:30", "raw:3082", "raw:308201", "raw:30820120a003", "raw:3080", "raw:30840000ffff", "nopka", "unsealed",
                      // a SEQUENCE header announcing 16 MiB .. 4 GiB with (almost) nothing behind it
-                     "raw:3083ffffff", "raw:30840fffffff", "raw:3084ffffffff", "raw:30847fffffffa003020102", "raw:308410000000"] {
+                     "raw:3083ffffff", "raw:30840fffffff", "raw:3084ffffffff", "raw:30847fffffffa003020102", "raw:308410000000",
+                     // accepted by the security interface, but deciphering to fewer / more bytes than the public key, or to none
+                     "plen:1", "plen:2", "plen:100", "plen:269", "plen:0", "pext:01", "pext:00000000000000000000000000000001"] {
             let c = crate::props::c01::Case { dom: "d".into(), user: "u".into(), pw: "p".into(), from_hash: false, ra: false, id: 1, flags, sc, ti: ti.clone(), reply: rcp.to_string(), reply1: "honest".into(), pre: String::new() };
             crate::props::c01::run(em, &c);
             // the same damage to the first reply (the TSRequest carrying the CHALLENGE)
